@@ -504,10 +504,14 @@ def tiebreak_only(c, o, oracle_clean):
 
 
 def run(ctx):
-    ctx.trusted += ["hand-written Gallina model C32/Model.v (compared with the Go functions by vm_compute on every case of every run)",
+    ctx.trusted += ["tools/goq translator for the quotient/remainder of allocateGrains (Gen/C32.v regenerated each run; C32_grain_arithmetic_from_source ties it to the model, the differential cases validate both)",
+                    "hand-written Gallina model C32/Model.v (compared with the Go functions by vm_compute on every case of every run)",
                     "Go map iteration order of PeerState.Actors/Grains is an oracle: the order a run used is reconstructed from its output"]
     ctx.assumptions += ["target occupancies + number of departed actors stay below 2^63 (Go int loads modelled as unbounded Z)",
                         "Chunkify is only reached with chunkSize >= 1 on a non-empty slice (proved for allocateGrains; 500 in buildRelocateBatchRequests)"]
+    ok_goq, goq_msg = ctx.goq("C32", "C32")
+    if not ok_goq:
+        ctx.tie_broken("goq-translation actor/relocation_worker.go allocateGrains quotient/remainder", goq_msg)
     cases = gen_cases(ctx)
     with open(os.path.join(ctx.work, "c32_in.jsonl"), "w") as f:
         for c in cases:
@@ -585,7 +589,7 @@ def run(ctx):
         "theorems": ["C32_actors_partition", "C32_assigned_target_advertises_role", "C32_unplaceable_iff_no_target", "C32_singletons_to_leader",
                      "C32_least_loaded", "C32_relocatable_grains", "C32_grains_exactly_once", "C32_chunkify", "C32_plan_actors_exactly_once",
                      "C32_plan_grains_exactly_once", "C32_plan_targets_exist", "C32_plan_peer_roles", "C32_plan_batches_bounded",
-                     "C32_reassign_partition", "C32_reassign_roles", "C32_reassign_least_loaded", "C32_spread_exactly_once"],
+                     "C32_reassign_partition", "C32_reassign_roles", "C32_reassign_least_loaded", "C32_spread_exactly_once", "C32_grain_arithmetic_from_source"],
     })
 
 
